@@ -302,13 +302,15 @@ Definition check_apg (k : case_apg) : bool :=
 
 (* ---- accelerated pdhg: tau_k, sigma_k, theta_k recorded by replaying the scalar recursion ---- *)
 Record case_pdacc := { kw_nc : nat; kw_M : qmat; kw_f : fk; kw_g : fk; kw_tau : list Q; kw_sigma : list Q;
-                       kw_theta : list Q; kw_x : qvec; kw_n : nat; kw_tr : list qvec }.
+                       kw_theta : list Q; kw_x : qvec; kw_n : nat; kw_tr : list qvec;
+                       kw_split : list qvec }.   (* n1 iterations, then the rest with the step sizes reached, x_relax, y passed *)
 Definition check_pdacc (k : case_pdacc) : bool :=
   let L := mop (kw_M k) in let Ladj := madj (kw_nc k) (kw_M k) in
   let tau := fun j => nth j (kw_tau k) 0 in let sigma := fun j => nth j (kw_sigma k) 0 in
   let theta := fun j => nth j (kw_theta k) 0 in
   let st := fun j => pdhg_step L Ladj (prox_of (kw_f k) (tau j)) (ccprox_of (kw_g k) (sigma j)) (tau j) (sigma j) (theta j) in
-  vsclose (kw_tr k) (tracek pd_x (kw_n k) 0 st (pdhg_init (length (kw_M k)) (kw_x k) None None)).
+  vsclose (kw_tr k) (tracek pd_x (kw_n k) 0 st (pdhg_init (length (kw_M k)) (kw_x k) None None))
+  && splits_ok (kw_split k) (pd_x (iterk (kw_n k) 0 st (pdhg_init (length (kw_M k)) (kw_x k) None None))).
 
 (* ---- random order: the permutations drawn by the implementation (seeded) are part of the case ---- *)
 Definition kz_dflt : @kzop Q := mk_kzop (fun v => v) (fun _ v => v) [] 0.
